@@ -402,7 +402,8 @@ def run_one(spec: dict) -> dict:
             probe("root_moved")
             events.append(["admin", "root_move", op["to"], bool(op.get("relative"))])
         elif k == "chdir":
-            os.chdir({"cwd": world.p("cwd"), "root": world.p("root"), "W": world.W, "outside": world.p("outside")}[op["to"]])
+            os.chdir({"cwd": world.p("cwd"), "root": world.p("root"), "W": world.W, "outside": world.p("outside"),
+                      "sub": world.p("root/sub"), "deep": world.p("root/sub/deep") if os.path.isdir(world.p("root/sub/deep")) else world.p("root/sub")}[op["to"]])
             probe("chdir")
             events.append(["admin", "chdir", op["to"]])
         elif k == "dir_env":
@@ -426,7 +427,7 @@ def run_one(spec: dict) -> dict:
                         world.name_marker("root/a.sql")
                 elif kind == "dir_to_file":
                     path = world.p("root/sub/deep")
-                    if os.path.isdir(path):
+                    if os.path.isdir(path) and not under(os.getcwd(), path):  # never remove the working directory itself
                         for m in [m for m, pp in world.markers.items() if under(pp, path)]:
                             del world.markers[m]
                         shutil.rmtree(path)
@@ -627,7 +628,7 @@ def execute(arg):
 # ---------------------------------------------------------------------------
 # generator
 
-SEGS = ["..", ".", "a.sql", "sub", "sub/b.sql", "sub/deep/c.sql", "../root_sibling", "../root_sibling/s.sql", "../outside", "../outside/o.sql",
+SEGS = ["..", ".", "../o.sql", "../../outside/o.sql", "../s.sql", "a.sql", "sub", "sub/b.sql", "sub/deep/c.sql", "../root_sibling", "../root_sibling/s.sql", "../outside", "../outside/o.sql",
         "a.sql/x", "", "deep", "b.sql", "s.sql", "o.sql", "r2.sql", "more", "m.sql", "inner/i.sql", "rel.sql", "etc", "hostname"]
 
 
@@ -688,7 +689,7 @@ def gen_admin(g):
     if r < 0.4:
         return {"op": "root_move", "to": g.choice(["root", "root2", "sub", "root2", "W"]), "relative": g.random() < 0.35}
     if r < 0.6:
-        return {"op": "chdir", "to": g.choice(["cwd", "root", "W", "outside"])}
+        return {"op": "chdir", "to": g.choice(["cwd", "root", "W", "outside", "sub", "sub", "deep"])}
     if r < 0.8:
         return {"op": "fs_mutate", "kind": g.choice(["file_to_dir", "dir_to_file", "delete", "create"])}
     return {"op": "dir_env", "to": g.choice(["root", "root2", "outside", None])}
